@@ -34,6 +34,7 @@ ASSUMPTIONS = [
 ]
 FLOORS = {'probes': 2000, 'name_probes': 20,
           'probes_after_reassignment': 500, 'derived_models': 5, 'narrow_extracts': 2,
+          'switched_chain_evaluations': 100,
           'reassignments_xlcell': 10,
           'failing_evaluations_before_reassignment': 20}
 ANCHOR_FUNCS = {
@@ -48,8 +49,9 @@ ANCHOR_FUNCS = {
 }
 TIMEOUT = {'quick': 600, 'thorough': 3000}
 
-SHEETS = ['Sheet1', 'Data', 'My Sheet', "It's", 'Q1 2020']
-PRIMES = [1, 5, 7, 11, 13]
+SHEETS = ['Sheet1', 'Data', 'My Sheet', "It's", 'Q1 2020', '2024', '1st Qtr',
+          'R2', 'A1']
+PRIMES = [1, 5, 7, 11, 13, 17, 19, 23, 29]
 NCOL, NROW = 6, 5                     # the power-of-3 block A1:F5
 LET_ROW0 = 10                         # letters block A10:D12
 PROBE_COL0 = 12                       # probes from column L
@@ -401,6 +403,20 @@ def run(ctx):
             wb.cells[key] = ('f', ('bin', '+', ast, (
                 'call', 'NOSUCHFUNCTION', [('lit', 1, '1')])))
             failing.append(key)
+        # a chain that fails only while a switch is on: Y -> X ->
+        # IF(switch=1, NOSUCHFUNCTION(1), cell on another sheet)
+        sw_home, sw_other = sheets[0], sheets[-1]
+        k_sw, k_x, k_y = (sw_home, 8, 90), (sw_home, 41, 1), (sw_home, 41, 2)
+        wb.cells[k_sw] = 1
+        cells[k_sw] = 1
+        wb.cells[k_x] = ('f', ('call', 'IF', [
+            ('bin', '=', ('ref', None, 8, 90, False, False), ('lit', 1, '1')),
+            ('call', 'NOSUCHFUNCTION', [('lit', 1, '1')]),
+            ('bin', '+', ('ref', sw_other, 2, 2, False, False),
+             ('lit', 0, '0'))]))
+        wb.cells[k_y] = ('f', ('bin', '+', ('ref', None, 41, 1, False, False),
+                               ('call', 'SUM', [('rng', sw_other, 1, 1, 2, 2,
+                                                 (False,) * 4)])))
         try:
             if path_kind == 'xlsx':
                 model = build.model_from_xlsx(
@@ -494,6 +510,39 @@ def run(ctx):
             ctx.event('failing_evaluations_before_reassignment')
             if got[0] != 'raised':
                 ctx.note(f'the failing probe returned {got}')
+        # ---- the switched chain: fails while the switch is on, gives the
+        # current values of the cells it reads once the switch is off ---------
+        if build.addr(k_y) in model.cells:
+            bad_sw = []
+            for state in (1, 0, 1, 0):
+                if state != wb.cells[k_sw]:
+                    ev.set_cell_value(build.addr(k_sw), state)
+                    wb.cells[k_sw] = state
+                for k_ in (k_y, k_x):
+                    got = subject.outcome_of(
+                        lambda: ev.evaluate(build.addr(k_)))
+                    ctx.event('switched_chain_evaluations')
+                    if state == 1:
+                        if got[0] != 'raised':
+                            bad_sw.append(f'switch on: {build.addr(k_)} -> '
+                                          f'{got}, expected a failure')
+                    else:
+                        try:
+                            want = ('value', ref.to_norm(wb.value(k_)))
+                        except ref.Undecided:
+                            continue
+                        if got != want:
+                            bad_sw.append(f'switch off (after it failed): '
+                                          f'{build.addr(k_)} -> {str(got)[:160]}'
+                                          f', reference {want[1]}')
+            if bad_sw:
+                ctx.fail(f'[{path_kind}{prov_note}] chain {build.addr(k_y)} -> '
+                         f'{build.addr(k_x)} -> IF({build.addr(k_sw)}=1,'
+                         f'NOSUCHFUNCTION(1),{sw_other}!B2): '
+                         + '; '.join(bad_sw[:3]),
+                         {'path': path_kind, 'model': prov, 'sheets': sheets,
+                          'problems': bad_sw[:8]}, monitor='probe-value',
+                         group='switched-chain:' + bad_sw[0][:10])
         # ---- the CURRENT value: cells of the blocks are re-assigned through
         # set_cell_value and a sample of the probes is evaluated again
         numeric = [k for k, v in cells.items()
